@@ -705,7 +705,14 @@ func compileAssignStmtLeft(context *funcContext, stmt *ast.AssignStmt) (int, []*
 			acs = append(acs, &assigncontext{ec, 0, 0, false, false})
 		case *ast.AttrGetExpr:
 			ac := &assigncontext{&expcontext{ecTable, regNotDefined, 0}, 0, 0, false, false}
-			compileExprWithKMVPropagation(context, st.Object, &reg, &ac.ec.reg)
+			if len(stmt.Lhs) > 1 {
+				// multiple assignment: keep the object in a temporary register, a later
+				// target of the same statement may be the local holding it
+				ac.ec.reg = reg
+				reg += compileExpr(context, reg, st.Object, ecnone(0))
+			} else {
+				compileExprWithKMVPropagation(context, st.Object, &reg, &ac.ec.reg)
+			}
 			ac.keyrk = reg
 			reg += compileExpr(context, reg, st.Key, ecnone(0))
 			if _, ok := st.Key.(*ast.StringExpr); ok {
@@ -752,9 +759,14 @@ func compileAssignStmtRight(context *funcContext, stmt *ast.AssignStmt, reg int,
 			expr = stmt.Rhs[namesassigned]
 		}
 		idx := reg
+		if ec.ctype == ecLocal && lennames > 1 {
+			// multiple assignment: every right-hand side is evaluated before any
+			// store, so a local target must not be written while evaluating
+			ec = ecnone(0)
+		}
 		reginc := compileExpr(context, reg, expr, ec)
 		if ec.ctype == ecTable {
-			if _, ok := expr.(*ast.LogicalOpExpr); !ok {
+			if _, ok := expr.(*ast.LogicalOpExpr); !ok && lennames == 1 {
 				context.Code.PropagateKMV(context.RegTop(), &ac.valuerk, &reg, reginc)
 			} else {
 				ac.valuerk = idx
